@@ -164,6 +164,20 @@ fn replay(path: &str) -> ! {
             let o = run_case(&x);
             println!("round {r}: run(\"{}\") -> {} allocation calls", show(&x), o.allocs);
             bad[r] = o.allocs != 0;
+        } else if w["engine"] == "run-lexi16" {
+            let x = unhex(w["input"].as_str().unwrap());
+            let mut m = mc::ifaces::Lexi;
+            let mut wr: heapless::Vec<u8, 16> = heapless::Vec::new();
+            let o = run_on(&mut m, &x, &mut wr, Pattern::NONE);
+            println!("round {r}: run(\"{}\") on Lexi with heapless::Vec<u8,16> -> {} allocation calls", show(&x), o.allocs);
+            bad[r] = o.allocs != 0;
+        } else if w["engine"] == "run8" {
+            let x = unhex(w["input"].as_str().unwrap());
+            let mut m = Main;
+            let mut wr: heapless::Vec<u8, 8> = heapless::Vec::new();
+            let o = run_on(&mut m, &x, &mut wr, Pattern::NONE);
+            println!("round {r}: run(\"{}\") with heapless::Vec<u8,8> -> {} allocation calls", show(&x), o.allocs);
+            bad[r] = o.allocs != 0;
         } else if w["engine"] == "run-lexi" {
             let x = unhex(w["input"].as_str().unwrap());
             let mut m = mc::ifaces::Lexi;
@@ -271,7 +285,7 @@ fn main() {
                 if o.end == End::Returned && o.allocs != 0 {
                     let f = vec![("engine", "run-long-mnemonics".to_string())];
                     self.groups.add("no-allocation", &f, (x.len(), x), || {
-                        (json!({"engine": "run-lexi", "input": hex(x)}), format!("run(\"{}\") on the Lexi interface: {} heap allocation calls", show(x), o.allocs))
+                        (json!({"engine": "run-lexi16", "input": hex(x)}), format!("run(\"{}\") on the Lexi interface: {} heap allocation calls", show(x), o.allocs))
                     });
                 }
             }
@@ -348,7 +362,7 @@ fn main() {
             if o.end == End::Returned && o.allocs != 0 {
                 let f = vec![("engine", "run-many-parameters".to_string())];
                 out.groups.add("no-allocation", &f, (x.len(), x), || {
-                    (json!({"engine": "run", "input": hex(x)}), format!("run(\"{}\"): {} heap allocation calls", show(x), o.allocs))
+                    (json!({"engine": "run8", "input": hex(x)}), format!("run(\"{}\") with heapless::Vec<u8,8>: {} heap allocation calls", show(x), o.allocs))
                 });
             }
         }
